@@ -5,6 +5,10 @@ Cases (JSON; the trees are those of vlib/c20_lib.py):
   {"kind": "cond", "c": C, "sseed": n}                          one condition, shown as the VC of `skip`
   {"kind": "sem",  "com": K, "init": [v0..v5]}                  nat program through imperative.imp.eval_Sem
   {"kind": "hvcg", "com": K, "pre": C, "post": C, "sseed": n}   nat program through imperative.imp.vcg_norm / vcg_tactic
+  {"kind": "prog", "com": K, "sseed": n, "via": "ctor"|"text", "bare": b}
+                                                                integer program -> print_com -> parser2.com_parser
+  {"kind": "ptext", "com": K, "pre": C?, "post": C?, "sseed": n, "bare": b, "brackets": b}
+                                                                nat program written as text -> imperative.parser
 """
 import contextlib
 import re
@@ -32,11 +36,25 @@ RULE = ("Integer while-programs over a b c i n s (skip, assignment, sequence, co
         "ordinary conventions (reference reader) and the shown string re-parsed by parser2.cond_parser must agree on all "
         "30 states; (d) nat programs over slots 0..5 of a nat=>nat state: imp.eval_Sem final state = reference "
         "interpreter, exported proof and the eval_Sem macro check with the kernel; imp.vcg_norm / vcg_tactic theorems "
-        "check, conclude the goal, and their assumptions evaluated over states imply the triple on executed runs. "
+        "check, conclude the goal, and their assumptions evaluated over states imply the triple on executed runs; (e) "
+        "every program (built with the constructors, or read by com_parser from its one-line text: programs with "
+        "loops, invariants `true` optionally left out) is printed by print_com before any VC is attached, the lines are "
+        "joined and re-read by com_parser as app/imperative.py does, and the re-read program must end every sampled "
+        "run (fuel 60) in the same state (if no sampled run of the whole program tells the two apart, e.g. because the "
+        "re-read program loops, the smallest sub-command that is re-read with another structure is judged as a program "
+        "of its own); the parser's reading of the one-line text is compared with the reference "
+        "reader when the text is not of the form `if .. else c; d`; (f) nat programs and pre/postconditions written as "
+        "text for imperative/parser.py (a..f = slots 0..5, parameters A B, + *, == != <= <, & |, true, loops with and "
+        "without invariant; no brackets, as in that grammar, 1 in 8 with brackets): parse_com / parse_cond give HOL "
+        "terms that are run by an interpreter for the rules of Sem (library/hoare.json) and must agree on 24 states (values 0..3) "
+        "with the reference interpreter on the reference reading of the same text (* over +, & over |). "
         "Non-trivial: (a) >= 2 assignments and the postcondition mentions an assigned variable; (b) all VCs true on all "
         "sampled and visited states and a terminating run from a pre-state iterates a loop; (c) the shown object needs "
         "brackets under the ordinary conventions; (d) eval_Sem succeeded on a program with >= 2 assignments or a loop "
-        "iteration / vcg_norm on a program whose loop iterates with all assumptions true. Distinct by canonical JSON.")
+        "iteration / vcg_norm on a program whose loop iterates with all assumptions true; (e) a conditional or loop is "
+        "followed by another command, or a branch is a sequence, and the round trip preserved all runs; (f) some "
+        "operator of the text stands directly under a different one of its sort (precedence decides the reading) and "
+        "the parsed term agrees. Distinct by canonical JSON.")
 ASSUMPTIONS = [
     "meaning of a program / condition = integer (or natural-number) semantics of its syntax tree; every generated tree "
     "is the parse of its fully bracketed text, so real callers (app/imperative.py, parser2.process_file) can produce it",
@@ -47,9 +65,20 @@ ASSUMPTIONS = [
     "for completeness",
     "validity of all VCs (needed only to confirm an unsound triple) is decided by z3 on an encoding written here; "
     "'unknown' is inconclusive",
-    "arrays, fields, forall, and While without an invariant are outside the property's quantifier and are not generated",
-    "how parser.py / parser2.py read unbracketed user text (a - b - c as a - (b - c), a * b + c as a * (b + c)) is "
-    "recorded as notes only; the round trip shown-string -> cond_parser is what is reported",
+    "arrays, fields and forall are outside the property's quantifier and are not generated; While without an "
+    "invariant is generated only as text (kinds prog and ptext), where it stands for the invariant true",
+    "user text is read with the same conventions (they are those of the HOL term language the parsed programs are "
+    "printed in, and of the grammar comments in parser2.py): a text whose parse by imperative/parser.py (anchored by "
+    "the property, used by parser.process_file for eval and vcg entries) or parser2.com_parser means something else "
+    "is reported, because the Sem / Valid theorem or the VCs are then about another program than the one written",
+    "command texts in which a conditional is directly followed by `;` have two derivations in both grammars and no "
+    "convention to appeal to: such texts are not judged against the reference reader (class conditional-then-semicolon);"
+    " what is reported for them is only that print_com followed by com_parser changes the runs of a program",
+    "programs built with the constructors of imperative.com are in the domain of (e) as they are for (a)-(c): the "
+    "constructors are the public way to build a program (imperative/tests/com_test.py prints and verifies such "
+    "objects), and print_com output is what app/imperative.py sends to the client and parses again for program-verify",
+    "a loop without invariant in the language of parser2 is rejected on the pinned tree (AssertionError in While); "
+    "a rejection is allowed by the property and is counted as a note (com_parser-rejected:...:loop-without-invariant)",
     "imp.eval_Sem is only called when the reference interpreter terminates within its fuel (14 iterations, values "
     "<= 5000); runs whose values leave -10^9..10^9 are treated like runs out of fuel",
     "time limits (60 s eval_Sem / vcg_norm, 120 s proof checking) count CPU time of the process; a hit is inconclusive",
@@ -513,7 +542,9 @@ def check_vc(case, H):
         H.note('shown-structure-mismatch')
     if shown_nt:
         nontrivial = True
-    check_program_text(com_j, lines, states, H)
+    # (e) the program itself, printed before any VC is attached to it
+    klass.extend(check_prog({'kind': 'prog', 'com': com_j, 'sseed': case.get('sseed', 0), 'via': 'ctor'}, H,
+                            record=False))
 
     # (b) soundness against executed runs, VC truth = HOL form under the reference evaluator
     def mk(hol):
@@ -558,22 +589,212 @@ def check_vc(case, H):
     H.case(case, nontrivial, klass)
 
 
-def check_program_text(com_j, lines, states, H):
-    """Note only: the printed program re-parsed by com_parser runs like the original."""
-    text = '\n'.join(l['indent'] * ' ' + l['str'] for l in lines if l['ty'] != 'vc')
+# ---------------------------------------------------------------- (e) the printed program, re-read by com_parser
+def grouped(k, show=None):
+    """Fully grouped one-line text of a command, for messages only."""
+    show = show or L.std_str
+    t = k[0]
+    if t == 'skip':
+        return 'skip'
+    if t == 'asg':
+        return '%s := %s' % (k[1], show(k[2]))
+    if t == 'seq':
+        return '{%s; %s}' % (grouped(k[1], show), grouped(k[2], show))
+    if t == 'if':
+        return '{if (%s) then %s else %s}' % (show(k[1]), grouped(k[2], show), grouped(k[3], show))
+    if t == 'while':
+        return 'while (%s) {[%s] %s}' % (show(k[1]), show(k[2]), grouped(k[3], show))
+    return '?'
+
+
+def seq_tail_tag(k):
+    while k[0] == 'seq':
+        k = k[2]
+    return k[0]
+
+
+def flatten_seq(k):
+    """Command structure modulo associativity of `;` (guards and invariants left out)."""
+    t = k[0]
+    if t == 'seq':
+        items = []
+
+        def add(x):
+            if x[0] == 'seq':
+                add(x[1])
+                add(x[2])
+            else:
+                items.append(flatten_seq(x))
+        add(k)
+        return ['block'] + items
+    if t == 'if':
+        return ['if', flatten_seq(k[2]), flatten_seq(k[3])]
+    if t == 'while':
+        return ['while', flatten_seq(k[3])]
+    if t == 'asg':
+        return ['asg', k[1]]
+    return [t]
+
+
+def runs_differ(k1, k2, states, fuel=60):
+    """First state from which both programs terminate (reference interpreter) in different states, or None."""
+    for st in states:
+        f1 = L.run(k1, st, fuel)[0]
+        f2 = L.run(k2, st, fuel)[0]
+        if f1 is not None and f2 is not None and f1 != f2:
+            return st, f1, f2
+    return None
+
+
+def print_reparse(c):
+    """print_com of a command object without VCs, joined and re-read by com_parser (what app/imperative.py does between
+    get-program-file and program-verify).  Returns (text, tree | None, exception name | None)."""
+    text = '\n'.join(c.print_com(dict(VARCTX)))
     try:
         c2 = R['parser2'].com_parser.parse(text)
-        k2 = com_obj_to_json(c2)
-    except Exception:
-        H.note('program-text:reparse-rejected')
-        return
-    for st in states[:12]:
-        f1 = L.run(com_j, st, 60)[0]
-        f2 = L.run(k2, st, 60)[0]
-        if f1 is not None and f2 is not None and f1 != f2:
-            H.note('program-text:reparse-runs-differently')
-            return
-    H.note('program-text:reparse-same')
+    except Exception as e:
+        return text, None, exc_name(e)
+    return text, com_obj_to_json(c2), None
+
+
+def localise_print(orig):
+    """Feature for the signature: the smallest sub-command whose printed text is re-read with another structure."""
+    for sub in L.subcoms(orig):
+        try:
+            _, k2, _ = print_reparse(build_com(sub))
+        except Exception:
+            continue
+        if k2 is not None and flatten_seq(k2) != flatten_seq(sub):
+            if sub[0] == 'seq':
+                return 'seq-after-' + seq_tail_tag(sub[1])
+            return sub[0]
+    return 'other'
+
+
+def layout_matters(k):
+    """Non-trivial rule of (e): the text has to convey where a conditional or a loop ends."""
+    for sub in L.subcoms(k):
+        if sub[0] == 'seq' and seq_tail_tag(sub[1]) in ('if', 'while'):
+            return True
+        if sub[0] == 'if' and (sub[2][0] == 'seq' or sub[3][0] == 'seq'):
+            return True
+    return False
+
+
+def check_prog(case, H, record=True):
+    """Oracle (e).  via ctor: the program is built with the constructors; via text: it is what com_parser reads from the
+    one-line text of the tree (that reading is also compared with the reference reader)."""
+    com_j, via = case.get('com'), case.get('via', 'ctor')
+    L.check_com(com_j)
+    if (L.vars_of(com_j) | L.assigned_vars(com_j)) - set(VARS):
+        raise CaseInvalid('variables')
+    if L.com_depth(com_j) > 4:
+        raise CaseInvalid('nesting')
+    states = states_for(case)
+    klass = []
+
+    def done(nontrivial=False):
+        if record:
+            H.case(case, nontrivial, klass)
+        return klass
+    if via == 'text':
+        bare = bool(case.get('bare'))
+        try:
+            text0 = L.std_str_com(com_j, bare)
+        except Unsupported:
+            raise CaseInvalid('tree cannot be written')
+        try:
+            c = R['parser2'].com_parser.parse(text0)
+        except Exception as e:
+            unannotated = bare and any(x[0] == 'while' and x[2] == ['true'] for x in L.subcoms(com_j))
+            H.note('com_parser-rejected:%s%s' % (exc_name(e), ':loop-without-invariant' if unannotated else ''))
+            klass.append('prog:text:rejected')
+            return done()
+        try:
+            orig = com_obj_to_json(c)
+        except Unsupported:
+            H.inconc('parsed-object-unsupported')
+            return done()
+        try:
+            mine = L.std_read_com(text0, strict=True)
+        except L.Ambiguous:
+            mine = None
+            klass.append('prog:text:conditional-then-semicolon')
+        except ReadError:
+            mine = None
+            H.inconc('reference-reader-failed')
+        if mine is not None:
+            klass.append('prog:text:read')
+            d = runs_differ(mine, orig, states)
+            if d is not None:
+                feat = 'other'
+                for sub in L.subcoms(mine):
+                    try:
+                        o2 = com_obj_to_json(R['parser2'].com_parser.parse(L.std_str_com(sub, bare)))
+                    except Exception:
+                        continue
+                    if runs_differ(sub, o2, states) is not None:
+                        feat = sub[0]
+                        break
+                H.violation('com_parser:program-differs-from-text:%s' % feat, case,
+                            'text "%s" ; read here as %s ; com_parser reads %s ; state %s: the text ends in %s, the '
+                            'parsed program in %s' % (text0, grouped(mine), grouped(orig), d[0], d[1], d[2]))
+                klass.append('!text-differs')
+    elif via == 'ctor':
+        c = build_com(com_j)
+        orig = com_j
+    else:
+        raise CaseInvalid('via')
+    try:
+        text, k2, exc = print_reparse(c)
+    except Unsupported:
+        H.inconc('reparsed-object-unsupported')
+        return done()
+    except Exception as e:
+        H.note('print_com-rejected:' + exc_name(e))
+        klass.append('prog:print-rejected')
+        return done()
+    if k2 is None:
+        # completeness of the parser is not part of the property
+        H.note('print_com:reparse-rejected:' + exc)
+        klass.append('prog:reparse-rejected')
+        return done()
+    nt = layout_matters(orig)
+    d = runs_differ(orig, k2, states)
+    if d is not None:
+        H.violation('print_com:reparsed-program-runs-differently:%s' % localise_print(orig), case,
+                    'program %s ; print_com shows "%s" ; com_parser reads that as %s ; state %s: the program ends in %s, '
+                    'the re-read program in %s' % (grouped(orig), text.replace('\n', ' / '), grouped(k2), d[0], d[1], d[2]))
+        klass.append('!reparse-runs-differently')
+    elif flatten_seq(orig) != flatten_seq(k2):
+        # e.g. the re-read program does not terminate any more: judge the smallest misread sub-command, which is a
+        # program of the domain in its own right
+        found = False
+        for sub in L.subcoms(orig):
+            if sub is orig or sub[0] in ('skip', 'asg'):
+                continue
+            try:
+                stext, s2, _ = print_reparse(build_com(sub))
+            except Exception:
+                continue
+            if s2 is None or flatten_seq(s2) == flatten_seq(sub):
+                continue
+            d = runs_differ(sub, s2, states)
+            if d is not None:
+                H.violation('print_com:reparsed-program-runs-differently:%s' % localise_print(sub),
+                            dict(case, com=sub, via='ctor', bare=False),
+                            'program %s ; print_com shows "%s" ; com_parser reads that as %s ; state %s: the program ends '
+                            'in %s, the re-read program in %s' % (grouped(sub), stext.replace('\n', ' / '), grouped(s2),
+                                                                  d[0], d[1], d[2]))
+                klass.append('!reparse-runs-differently')
+                found = True
+                break
+        if not found:
+            H.inconc('reparsed-structure-differs-but-no-sampled-run-does')
+            klass.append('prog:reparse-other-structure-same-runs')
+    else:
+        klass.append('prog:%s:reparse-same:%s' % (via, 'layout-matters' if nt else 'plain'))
+    return done(nt and d is None)
 
 
 def com_obj_to_json(c):
@@ -948,6 +1169,208 @@ def check_hvcg(case, H):
     H.case(case, nontrivial, klass)
 
 
+# ---------------------------------------------------------------- (f) program text through imperative/parser.py
+SLOT_NAMES = 'abcdef'
+_TO_LETTER = {i: SLOT_NAMES[i] for i in range(NSLOTS)}
+_TO_SLOT = {SLOT_NAMES[i]: i for i in range(NSLOTS)}
+_OPN = ('+', '*', '&', '|')
+
+
+def subtrees(t):
+    """Expression / condition sub-trees in post-order."""
+    for x in t[1:]:
+        if isinstance(x, list):
+            yield from subtrees(x)
+    yield t
+
+
+def cond_roots(k):
+    """Expressions and conditions of a command, in text order."""
+    out = []
+    for sub in L.subcoms(k):
+        if sub[0] == 'asg':
+            out.append(sub[2])
+        elif sub[0] == 'if':
+            out.append(sub[1])
+        elif sub[0] == 'while':
+            out.extend([sub[1], sub[2]])
+    return out
+
+
+def mixes_operators(t):
+    """The text of t is only determined by precedence: an operator directly under a different one of its sort."""
+    for x in subtrees(t):
+        if x[0] in _OPN and any(isinstance(y, list) and y[0] in _OPN and y[0] != x[0] and
+                                ((y[0] in '+*') == (x[0] in '+*')) for y in x[1:]):
+            return True
+    return False
+
+
+def slot_part(st):
+    return {i: st[i] for i in range(NSLOTS)}
+
+
+def param_part(st):
+    return {p: st[p] for p in PARAMS}
+
+
+def hol_com_mismatch(term, tree, states):
+    """Oracle (f) for commands: first (state, final of the tree, final of the HOL command) on which the reference
+    interpreter on `tree` (slots as variables) and the HOL interpreter on `term` both terminate and disagree."""
+    for st in states:
+        f_ref = L.run(tree, st, 40, 10 ** 6)[0]
+        if f_ref is None:
+            continue
+        f_hol = L.hol_com_run(term, slot_part(st), param_part(st), 400, 10 ** 9)
+        if f_hol is None:
+            continue
+        if any(k not in range(NSLOTS) and v != 0 for k, v in f_hol.items()) or \
+                any(f_ref[i] != f_hol.get(i, 0) for i in range(NSLOTS)):
+            return st, slot_part(f_ref), {k: v for k, v in sorted(f_hol.items())}
+    return None
+
+
+def hol_cond_mismatch(term, tree, states, lam):
+    """Oracle (f) for conditions.  lam: the term is an abstraction over the state, else it mentions the variable s."""
+    for st in states:
+        want = bool(L.ev_cond(tree, st))
+        f = L.dict_state_fun(slot_part(st))
+        if lam:
+            got = bool(L.hol_eval(term, param_part(st))(f))
+        else:
+            got = bool(L.hol_eval(term, dict(param_part(st), s=f)))
+        if want != got:
+            return st, want, got
+    return None
+
+
+def ptext_feature(roots, show, states):
+    """Which operators the parser groups against the reading: the smallest sub-text that is already misread."""
+    P = R['parser']
+    for root in roots:
+        for x in subtrees(root):
+            try:
+                xs = rename(x, _TO_SLOT)
+                if x[0] in L.ARITH:
+                    term = P.parse_com('a := ' + show(x))
+                    rhs = L.hol_strip(term)[1][1]
+                    bad = any(L.hol_eval(rhs, param_part(st))(L.dict_state_fun(slot_part(st))) != L.ev_expr(xs, st)
+                              for st in states)
+                elif x[0] in L.BOOL2:
+                    bad = hol_cond_mismatch(P.parse_cond(show(x)), xs, states, False) is not None
+                else:
+                    continue
+            except Exception:
+                continue
+            if bad:
+                # the parser groups to the right whatever the operators are; that changes the meaning only where
+                # two different operators of one sort meet
+                return {'+': 'times-plus', '*': 'times-plus', '&': 'and-or', '|': 'and-or'}.get(x[0], 'other')
+    return 'other'
+
+
+def check_ptext(case, H):
+    """A program (and optionally a pre/postcondition) written as text in the language of imperative/parser.py
+    (variables a..f = slots 0..5 of the state, parameters A B, + *, == != <= <, & |, true; no brackets in that
+    grammar).  The case tree only describes the text; the meaning is the reference reading of the text."""
+    com_j, pre_j, post_j = case.get('com'), case.get('pre'), case.get('post')
+    nat_check(com_j, pre_j, post_j, params=True)
+    bare, brackets = bool(case.get('bare')), bool(case.get('brackets'))
+    states = states_for(case, names=list(range(NSLOTS)) + PARAMS, lo=0, hi=3, n=24)
+    P = R['parser']
+    R['theory'].thy = R['thy']
+
+    def show(t):
+        return L.std_str(t) if brackets else L.strip_brackets(L.std_str(t))
+    text = L.std_str_com(rename(com_j, _TO_LETTER), bare, show)
+    ctexts = [(nm, show(rename(c, _TO_LETTER))) for nm, c in (('pre', pre_j), ('post', post_j)) if c is not None]
+    try:
+        mine = L.std_read_com(text, strict=True)
+        cmine = [(nm, t, L.std_read(t)) for nm, t in ctexts]
+    except L.Ambiguous:
+        H.note('ptext:conditional-then-semicolon')
+        H.case(case, False, 'ptext:ambiguous-text')
+        return
+    except ReadError:
+        H.inconc('reference-reader-failed')
+        H.case(case, False, 'ptext:unreadable')
+        return
+    roots = cond_roots(mine) + [t for _, _, t in cmine]
+    mixed = any(mixes_operators(r) for r in roots)
+    klass = ['ptext:%s' % ('precedence-decides' if mixed else 'flat')]
+    mine_s = rename(mine, _TO_SLOT)
+    # -- the command
+    try:
+        term = P.parse_com(text)
+    except Exception as e:
+        H.note('parse_com-rejected:' + exc_name(e))
+        H.case(case, False, klass + ['ptext:rejected'])
+        return
+    try:
+        d = hol_com_mismatch(term, mine_s, states)
+        dc = None
+        if d is None:
+            mc, hc = shown_conditions(mine_s), L.hol_com_conds(term)
+            if [x[0] for x in mc] == [x[0] for x in hc]:
+                for (tag, tree), (_, ct) in zip(mc, hc):
+                    r = hol_cond_mismatch(ct, tree, states, True)
+                    if r is not None:
+                        dc = (tag, tree, ct) + r
+                        break
+            else:
+                H.note('ptext:condition-list-differs')
+    except L.Malformed:
+        H.note('ptext:term-malformed')
+        H.case(case, False, klass)
+        return
+    except Unsupported:
+        H.inconc('parsed-term-unsupported')
+        H.case(case, False, klass)
+        return
+    if d is not None:
+        feat = ptext_feature(roots, show, states)
+        extra = ''
+        if not any(p in text for p in PARAMS):
+            try:
+                with time_limit(20):
+                    pt = R['imp'].eval_Sem(term, nat_state_term([d[0][i] for i in range(NSLOTS)]))
+                extra = ' ; and imp.eval_Sem proves %s' % (pt.th,)
+            except Exception:
+                extra = ''
+        H.violation('parser_py:term-differs-from-text:%s' % feat, case,
+                    'text "%s" ; by precedence that is %s ; parse_com gives %s ; from slots %s the text ends in %s, the '
+                    'term (rules of Sem) in %s%s' % (text, grouped(mine, full_paren), term, slot_part(d[0]), d[1], d[2], extra))
+        klass.append('!ptext-com-differs')
+    elif dc is not None:
+        H.violation('parser_py:term-differs-from-text:%s' % ptext_feature(roots, show, states), case,
+                    'text "%s" ; the %s condition, by precedence %s, is parsed as %s ; state %s: text %s, term %s' % (
+                        text, dc[0], full_paren(rename(dc[1], _TO_LETTER)), dc[2], dc[3], dc[4], dc[5]))
+        klass.append('!ptext-cond-differs')
+    # -- precondition / postcondition, as process_file reads them for a vcg entry
+    for nm, t, tree in cmine:
+        try:
+            ct = P.parse_cond(t)
+        except Exception as e:
+            H.note('parse_cond-rejected:' + exc_name(e))
+            klass.append('ptext:cond-rejected')
+            continue
+        try:
+            r = hol_cond_mismatch(ct, rename(tree, _TO_SLOT), states, False)
+        except Unsupported:
+            H.inconc('parsed-term-unsupported')
+            continue
+        if r is not None:
+            H.violation('parser_py:term-differs-from-text:%s' % ptext_feature([tree], show, states), case,
+                        '%s "%s" ; by precedence that is %s ; parse_cond gives %s ; state %s: text %s, term %s' % (
+                            nm, t, full_paren(tree), ct, r[0], r[1], r[2]))
+            klass.append('!ptext-cond-differs')
+    iterated = any(L.run(mine_s, st, 40, 10 ** 6)[2] > 0 and L.run(mine_s, st, 40, 10 ** 6)[0] is not None
+                   for st in states[:6])
+    if iterated:
+        klass.append('ptext:loop-iterated')
+    H.case(case, mixed and not any(k.startswith('!') for k in klass), klass)
+
+
 # ---------------------------------------------------------------- case interface
 _ROOMY = {'fn': None, 'inside': False}
 
@@ -988,6 +1411,10 @@ def run_case(case, H):
         check_sem(case, H)
     elif kind == 'hvcg':
         check_hvcg(case, H)
+    elif kind == 'prog':
+        check_prog(case, H)
+    elif kind == 'ptext':
+        check_ptext(case, H)
     else:
         raise CaseInvalid('kind')
 
@@ -1224,6 +1651,22 @@ def strategies(kind):
                     'sseed': draw(sseed)}
         return rl()
 
+    if kind == 'prog':
+        def pkext(ch):
+            loop = st.builds(
+                lambda v, bnd, inv, body: ['while', ['<', ['v', v], bnd], inv,
+                                           ['seq', body, ['asg', v, ['+', ['v', v], ['n', 1]]]]],
+                st.sampled_from(VARS), st.one_of(num, var), st.one_of(st.just(['true']), guard, guard), ch)
+            return st.one_of(st.tuples(st.just('seq'), ch, ch).map(list), st.tuples(st.just('seq'), ch, ch).map(list),
+                             st.tuples(st.just('if'), guard, ch, ch).map(list),
+                             st.tuples(st.just('if'), guard, ch, ch).map(list), loop)
+        pcom = st.recursive(st.one_of(asg, asg, st.just(['skip']), asg), pkext, max_leaves=6).filter(
+            lambda k: L.com_depth(k) <= 4)
+        return st.builds(lambda k, s, via, bare: {'kind': 'prog', 'com': k, 'sseed': s, 'via': via,
+                                                  'bare': bare and via == 'text'},
+                         pcom, sseed, st.sampled_from(['text', 'text', 'ctor']),
+                         st.integers(0, 5).map(lambda x: x == 0))
+
     # ---- nat level
     slot = st.integers(0, NSLOTS - 1)
     nleaf = st.one_of(slot.map(lambda i: ['v', i]), slot.map(lambda i: ['v', i]), st.integers(0, 3).map(lambda k: ['n', k]))
@@ -1279,6 +1722,64 @@ def strategies(kind):
             init = draw(st.lists(st.integers(0, 3), min_size=NSLOTS, max_size=NSLOTS))
             return {'kind': 'sem', 'com': k, 'init': init}
         return sem()
+
+    if kind == 'ptext':
+        # text for imperative/parser.py: sums and products, conjunctions and disjunctions in every order, without
+        # brackets (that grammar has none); commands in which no conditional is followed by `;`
+        tleaf = st.one_of(nleaf, nleaf, nleaf, st.sampled_from(PARAMS).map(lambda p: ['v', p]))
+        texpr = st.recursive(tleaf, next_, max_leaves=4)
+        tatom = st.tuples(st.sampled_from(['==', '!=', '<=', '<']), st.one_of(tleaf, texpr), st.one_of(tleaf, texpr)).map(list)
+        tcond = st.recursive(st.one_of(*([tatom] * 7 + [st.just(['true'])])), ncext, max_leaves=4)
+        tasg = st.tuples(st.just('asg'), slot, texpr).map(list)
+        simple = st.one_of(tasg, tasg, tasg, st.just(['skip']))
+
+        @st.composite
+        def tloop(draw, depth):
+            v = draw(slot)
+            k = draw(st.integers(0, 3))
+            body = _retarget(draw(tblock(depth + 1, False)), v)
+            body = ['seq', body, ['asg', v, ['+', ['v', v], ['n', 1]]]]
+            g = draw(st.sampled_from([['!=', ['v', v], ['n', k]], ['<', ['v', v], ['n', k]],
+                                      ['&', ['<', ['v', v], ['n', k]], draw(tatom)],
+                                      ['|', ['<', ['v', v], ['n', k]], ['&', ['<', ['v', v], ['n', k + 1]], draw(tatom)]]]))
+            inv = draw(st.one_of(st.just(['true']), st.just(['true']), tcond))
+            loop = ['while', g, inv, body]
+            return loop
+
+        @st.composite
+        def tif(draw, depth):
+            def branch():
+                opts = [simple, simple]
+                if depth < 2:
+                    opts += [tif(depth + 1), tloop(depth + 1)]
+                return draw(st.one_of(*opts))
+            return ['if', draw(tcond), branch(), branch()]
+
+        @st.composite
+        def tblock(draw, depth, cond_last=True):
+            n = draw(st.integers(1, 3))
+            items = []
+            for i in range(n):
+                opts = [simple, simple, simple]
+                if depth < 2:
+                    opts.append(tloop(depth))
+                    if i == n - 1 and cond_last:
+                        opts += [tif(depth), tif(depth)]
+                items.append(draw(st.one_of(*opts)))
+            k = items[-1]
+            for x in reversed(items[:-1]):
+                k = ['seq', x, k]
+            return k
+
+        @st.composite
+        def pt(draw):
+            case = {'kind': 'ptext', 'com': draw(tblock(0)), 'sseed': draw(sseed),
+                    'bare': draw(st.booleans()), 'brackets': draw(st.integers(0, 7)) == 0}
+            if draw(st.booleans()):
+                case['pre'] = draw(tcond)
+                case['post'] = draw(tcond)
+            return case
+        return pt()
 
     if kind == 'hvcg':
         pleaf = st.one_of(nleaf, nleaf, st.sampled_from(PARAMS).map(lambda p: ['v', p]))
@@ -1370,15 +1871,16 @@ def _replace(t, path, new):
 
 # ---------------------------------------------------------------- exploration
 COUNTS = {
-    'quick': {'lf': 1200, 'tpl': 1400, 'rl': 600, 'cond': 2400, 'sem': 160, 'hvcg': 240},
-    'thorough': {'lf': 40000, 'tpl': 40000, 'rl': 20000, 'cond': 60000, 'sem': 5000, 'hvcg': 5000},
+    'quick': {'lf': 1200, 'tpl': 1400, 'rl': 600, 'cond': 2400, 'sem': 160, 'hvcg': 240, 'prog': 480, 'ptext': 800},
+    'thorough': {'lf': 40000, 'tpl': 40000, 'rl': 20000, 'cond': 60000, 'sem': 5000, 'hvcg': 5000, 'prog': 20000,
+                 'ptext': 40000},
 }
 
 
 def shards(tier):
     out = []
     per = 8 if tier == 'quick' else 32
-    for kind in ('sem', 'hvcg', 'tpl', 'rl', 'lf', 'cond'):
+    for kind in ('sem', 'hvcg', 'tpl', 'rl', 'lf', 'cond', 'prog', 'ptext'):
         for i, n in enumerate(harness.split(COUNTS[tier][kind], per)):
             out.append({'kind': kind, 'n': n, 'i': i})
     return out
@@ -1458,6 +1960,48 @@ def selftest():
     ti = K.less_eq(IntType)(a, a * a - K.Int(1))
     need(confirm_valid([tv], ['a']) == 'valid', 'z3 validity: valid formula')
     need(confirm_valid([tv, ti], ['a']) == 'invalid', 'z3 validity: invalid formula')
+    # command printer / readers
+    pre, com, post = template('condbody')
+    need(L.std_read_com(L.std_str_com(com)) == com, 'command printer / reader round trip')
+    try:
+        L.std_read_com(L.std_str_com(com), strict=True)
+        need(False, 'strict reader accepts a conditional followed by ;')
+    except L.Ambiguous:
+        pass
+    need(L.std_read_com('while (a != 3) {b := b + 5; a := a + 1}; c := 1', strict=True) ==
+         ['seq', ['while', ['!=', ['v', 'a'], ['n', 3]], ['true'],
+                  ['seq', ['asg', 'b', ['+', ['v', 'b'], ['n', 5]]], ['asg', 'a', ['+', ['v', 'a'], ['n', 1]]]]],
+          ['asg', 'c', ['n', 1]]], 'reader: loop without invariant')
+    # (e): programs that run alike / differently, structure modulo associativity of ;
+    x1, x0 = ['asg', 'a', ['n', 1]], ['asg', 'a', ['n', 0]]
+    g = ['==', ['v', 'a'], ['n', 1]]
+    k_out, k_in = ['seq', ['if', g, ['skip'], x1], x0], ['if', g, ['skip'], ['seq', x1, x0]]
+    need(runs_differ(k_out, k_in, sts) is not None and runs_differ(k_out, k_out, sts) is None, 'run comparison')
+    need(flatten_seq(['seq', ['seq', x1, x0], x1]) == flatten_seq(['seq', x1, ['seq', x0, x1]]) and
+         flatten_seq(k_out) != flatten_seq(k_in) and layout_matters(k_out) and not layout_matters(['seq', x1, x0]),
+         'command structure')
+    # (f): HOL command interpreter against the reference interpreter, right and wrong terms
+    for nm in ('double', 'nested', 'ifset'):
+        _, ncom, _ = template(nm, nat=True)
+        ncom = rename(ncom, dict(_TO_SLOT))
+        nsts = L.lcg_states(7, 24, list(range(NSLOTS)) + PARAMS, 0, 2)
+        need(hol_com_mismatch(nat_com_term(ncom), ncom, nsts) is None, 'HOL command interpreter differs on ' + nm)
+    t_text = L.std_read_com('a := a * b + c')
+    need(t_text == ['asg', 'a', ['+', ['*', ['v', 'a'], ['v', 'b']], ['v', 'c']]], 'reading of a * b + c')
+    t_good = rename(t_text, _TO_SLOT)
+    t_bad = ['asg', 0, ['*', ['v', 0], ['+', ['v', 1], ['v', 2]]]]
+    need(hol_com_mismatch(nat_com_term(t_good), t_good, nsts) is None and
+         hol_com_mismatch(nat_com_term(t_bad), t_good, nsts) is not None, 'text oracle: wrong grouping not seen')
+    c_text = L.std_read('a == 0 & b == 0 | c == 0')
+    need(c_text[0] == '|' and c_text[1][0] == '&' and mixes_operators(c_text) and
+         not mixes_operators(L.std_read('a == 0 & b + 1 == 0 & c == 0')), 'reading of & and |')
+    sv = K.Var('s', R['natFunT'])
+    c_good = rename(c_text, _TO_SLOT)
+    c_bad = ['&', c_good[1][1], ['|', c_good[1][2], c_good[2]]]
+    need(hol_cond_mismatch(nat_cond_term(c_good, sv), c_good, nsts, False) is None and
+         hol_cond_mismatch(nat_cond_term(c_bad, sv), c_good, nsts, False) is not None and
+         hol_cond_mismatch(K.Lambda(sv, nat_cond_term(c_bad, sv)), c_good, nsts, True) is not None,
+         'text oracle: wrong grouping of a condition not seen')
     # (c): known-bad shown string
     H = harness.Ctx(ID)
     check_shown({}, 'vc', t1, 'a - b - c == 0', None, sts, H)
